@@ -117,6 +117,64 @@ def delete_removes_found(prog, f, tree, removals):
     return None
 
 
+def in_order_neighbour(prog, f, src, removed):
+    """None if `src` is the end of a walk along one link kind (`left`) that starts at the opposite child (`right`) of the removed
+    slot - the in-order successor - or the mirror image (predecessor); otherwise the reason"""
+    def walk_kind(fn, v, depth=0):
+        """(start value, link kind walked or None) for a value that is the result of following one link kind from a start"""
+        v = strip(v)
+        if v is None or depth > 4:
+            return None
+        if v.kind == 'call':
+            tg = prog.resolve(v)
+            if tg is None or tg.is_closure or tg.path in prog.accessors or len(v.args) < 2:
+                return None
+            kinds, ok_ = set(), True
+            k_param = None
+            for rv in tg.body.ret_val.values():
+                for at in origins(prog, tg, rv):
+                    if at[0] == 'param':
+                        k_param = at[1]
+                    elif at[0] == 'link' and at[2] in ('left', 'right'):
+                        kinds.add(at[2])
+                    else:
+                        ok_ = False
+            if not ok_ or k_param is None or len(kinds) > 1 or k_param - 1 >= len(v.args):
+                return None
+            return strip(v.args[k_param - 1]), (kinds.pop() if kinds else None)
+        if v.kind == 'phi':
+            b_ = fn.body
+            lp = b_.cfg.loops()
+            h = v.extra.get('block')
+            if h in lp:
+                inits = [strip(a) for a, p_ in zip(v.args, v.extra['preds']) if p_ not in lp[h]]
+                steps = [strip(a) for a, p_ in zip(v.args, v.extra['preds']) if p_ in lp[h]]
+                kinds = set()
+                for st_ in steps:
+                    nf = prog.node_field(st_) if st_.kind == 'load' else None
+                    if nf is None or len(nf[1]) != 1 or nf[1][0] not in ('left', 'right') or strip(nf[0]) is not v:
+                        return None
+                    kinds.add(nf[1][0])
+                if len(inits) == 1 and len(kinds) == 1:
+                    return inits[0], kinds.pop()
+        return None
+    w = walk_kind(f, src)
+    if w is None:
+        return None          # a shape this clause does not read (left to the sibling comparison)
+    start, kind = w
+    nf = prog.node_field(start) if start is not None and start.kind == 'load' else None
+    if nf is None or len(nf[1]) != 1 or nf[1][0] not in ('left', 'right'):
+        return None
+    if strip(nf[0]) is not removed and not (strip(nf[0]).kind == removed.kind == 'param' and strip(nf[0]).args == removed.args):
+        return None
+    side = nf[1][0]
+    if kind is None:
+        return None          # the child itself (no walk): right for a child without a subtree on the near side; not decided here
+    if kind == side:
+        return 'it is found by walking %s links from the %s child, i.e. the far end of that subtree, not the entry next to the removed key' % (kind, side)
+    return None
+
+
 def counter_discipline(prog, tree, fld):
     """None if field `fld` of the tree counts its entries: 0 from every constructor, := 0 in clear, + 1 exactly once on every path
     of every function that takes a slot from the pool for an entry, - 1 exactly once on every path of the removal, written
@@ -272,6 +330,12 @@ def run(ctx):
                         if over is not None:
                             ctx.add(RULE, f, sig, 'violation', 'the payload moved into the removed slot is read from slot %s after that slot\'s own payload was overwritten (%s): the entry that was stored there is lost and another one is duplicated' % (show(srcs[0][0], 2), over), props, line)
                             continue
+                    if ok:
+                        # which other slot: the one entry that can take the removed entry's place without disturbing the key
+                        # order - the leftmost entry of its right subtree (or, mirrored, the rightmost of its left subtree)
+                        why_s = in_order_neighbour(prog, f, srcs[0][0], idx)
+                        if why_s:
+                            ctx.add(RULE, f, sig.replace('payload-write', 'payload-source'), 'violation', 'the entry moved into the removed slot is not its in-order neighbour: ' + why_s + ' (the keys around the slot are then out of order and lookups miss entries that are present)', props, line)
                     if ok:
                         ctx.add(RULE, f, sig, 'ok', 'the removal overwrites the removed slot with the whole payload of one other slot (%s)' % show(srcs[0][0], 3), props, line)
                     else:
